@@ -53,7 +53,9 @@ Variable c : comp.
 Hypothesis W : WF c.
 Hypothesis W2 : WF2 c.
 Variable p : pspec.
-Hypothesis LOAD : load_spec (emit_comp c) pspec0 = OK p.
+Variable ls : list pline.
+Hypothesis LOAD : load_spec ls pspec0 = OK p.
+Hypothesis INC : incl (emit_comp c) ls.
 Variable lay : layout.
 Variable g : cgraph.
 Hypothesis SEED : seed p false = OK (lay, g).
@@ -62,9 +64,9 @@ Hypothesis ARR : get_constraints p false = DOk e w s.
 Variable nts : list ascii.
 Hypothesis FITS : fits nts e w.
 Let P := c_prefix c.
-Let LIp : LI p := load_spec_LI (emit_comp c) pspec0 p LI_empty LOAD.
-Let WFp : spec_wf p false := load_spec_wf (emit_comp c) p LOAD.
-Let SH := load_spec_shape (emit_comp c) pspec0 p LOAD.
+Let LIp : LI p := load_spec_LI ls pspec0 p LI_empty LOAD.
+Let WFp : spec_wf p false := load_spec_wf ls p LOAD.
+Let SH := load_spec_shape ls pspec0 p LOAD.
 
 (* every non-empty base sequence of the component is a sequence of the loaded specification *)
 Lemma base_loaded n b : In (n, b) (c_bases c) -> b_len b <> 0 ->
@@ -72,7 +74,7 @@ Lemma base_loaded n b : In (n, b) (c_bases c) -> b_len b <> 0 ->
 Proof. intros Hin NZ. assert (LN : In (PSeq (P +++ n) (b_const b) (b_len b)) (emit_comp c)).
   { rewrite emit_split. apply in_or_app. left. unfold base_lines. apply in_flat_map. exists (n, b). split; [exact Hin|].
     destruct (Nat.eqb_spec (b_len b) 0); [contradiction | left; reflexivity]. }
-  pose proof (sh_seq _ _ SH _ _ _ LN) as HB. apply In_nth_error in HB. destruct HB as [k Hk]. exists k. split; [exact Hk | apply (wf_base_idx p false WFp k _ _ Hk)]. Qed.
+  pose proof (sh_seq _ _ SH _ _ _ (INC _ LN)) as HB. apply In_nth_error in HB. destruct HB as [k Hk]. exists k. split; [exact Hk | apply (wf_base_idx p false WFp k _ _ Hk)]. Qed.
 
 Section Records.
 Variable a : results.
@@ -114,7 +116,7 @@ Proof. induction brefs as [|[bn star] brefs IH]; intros H; [reflexivity|]. unfol
 
 (* the string read for a strand is what finish computes from the base records *)
 Lemma strand_value n st : In (n, st) (c_strands c) -> afind (r_strands a) (P +++ n) = Some (brefs_value vals (s_base (t_sup st))).
-Proof. intros Hin. destruct (strand_flattening c W p LOAD n st Hin) as [l [HS FL]]. destruct (RB _ _ _ _ HS) as [vs [F [RD BB]]].
+Proof. intros Hin. destruct (strand_flattening c W p ls LOAD INC n st Hin) as [l [HS FL]]. destruct (RB _ _ _ _ HS) as [vs [F [RD BB]]].
   unfold P. rewrite F. f_equal. pose proof (wf_strands c W n st Hin) as OKs.
   rewrite <- (E_flatB (s_base (t_sup st)) (so_bdef _ _ _ OKs)).
   set (L := flatB c (s_base (t_sup st))) in *.
@@ -147,7 +149,7 @@ Lemma finish_H2 n u : In (n, u) (c_structs c) ->
       | Some x => x | None => [] end) (u_strands u))).
 Proof. intros Hin. assert (LN : In (PStruct (u_opt u) (P +++ n) (map (fun x => P +++ x) (u_strands u)) (u_struct u)) (emit_comp c)).
   { rewrite emit_split. apply in_or_app. right. apply in_or_app. right. apply in_or_app. right. apply in_or_app. left. apply in_map_iff. exists (n, u). auto. }
-  destruct (sh_struct _ _ SH _ _ _ _ LN) as [len HS]. pose proof (RC _ _ _ _ HS) as HR. unfold t. rewrite (table_of_In recs ND _ _ HR). f_equal.
+  destruct (sh_struct _ _ SH _ _ _ _ (INC _ LN)) as [len HS]. pose proof (RC _ _ _ _ HS) as HR. unfold t. rewrite (table_of_In recs ND _ _ HR). f_equal.
   rewrite join_plus_same. f_equal. rewrite map_map. apply map_ext_in. intros sn Hsn.
   (* the strand is defined *)
   destruct (in_split _ _ Hin) as [pre [post Es]]. destruct (wf2_structs c W2 pre n u post Es) as [_ [_ [ts [FS _]]]].
@@ -172,8 +174,8 @@ Theorem compiled_design_finishes ctr prefix d body c ctr' p lay g e w s nts :
 Proof. intros COMP LOAD SEED ARR FITS. destruct (compile_comp_inv _ _ _ _ _ _ COMP) as [W [W2 _]].
   destruct (loaded_design_results_ok (emit_comp c) p lay g nts LOAD SEED e w s ARR FITS) as [a [recs [PR [OR [RA [RB RC]]]]]].
   exists a, recs. split; [exact PR | split; [exact OR|]]. intros ND. apply apply_comp_complete.
-  - intros n b Hin NZ. apply (finish_H1 c W p LOAD recs ND RA n b Hin NZ).
-  - intros vals VALS n u Hin. apply (finish_H2 c W W2 p LOAD lay nts a recs ND RB RC vals VALS n u Hin). Qed.
+  - intros n b Hin NZ. apply (finish_H1 c W p (emit_comp c) LOAD (incl_refl _) recs ND RA n b Hin NZ).
+  - intros vals VALS n u Hin. apply (finish_H2 c W W2 p (emit_comp c) LOAD (incl_refl _) lay nts a recs ND RB RC vals VALS n u Hin). Qed.
 
 (* the whole chain for a compiled component whose constraint strings are nucleotide codes *)
 Theorem compiled_component_end_to_end ctr prefix d body c ctr' :
@@ -199,8 +201,8 @@ Theorem compiled_design_finishes_struct ctr prefix d body c ctr' p lay g e w s n
 Proof. intros COMP LOAD SEED ARR FITS. destruct (compile_comp_inv _ _ _ _ _ _ COMP) as [W [W2 _]].
   destruct (sloaded_design_results_ok (emit_comp c) p lay g nts LOAD SEED e w s ARR FITS) as [a [recs [PR [OR [RA [RB RC]]]]]].
   exists a, recs. split; [exact PR | split; [exact OR|]]. intros ND. apply apply_comp_complete.
-  - intros n b Hin NZ. apply (finish_H1 c W p LOAD recs ND RA n b Hin NZ).
-  - intros vals VALS n u Hin. apply (finish_H2 c W W2 p LOAD lay nts a recs ND RB RC vals VALS n u Hin). Qed.
+  - intros n b Hin NZ. apply (finish_H1 c W p (emit_comp c) LOAD (incl_refl _) recs ND RA n b Hin NZ).
+  - intros vals VALS n u Hin. apply (finish_H2 c W W2 p (emit_comp c) LOAD (incl_refl _) lay nts a recs ND RB RC vals VALS n u Hin). Qed.
 
 Theorem compiled_component_end_to_end_struct ctr prefix d body c ctr' :
   compile_comp ctr prefix d body = OK (c, ctr') ->
